@@ -48,6 +48,7 @@ namespace bxdecay0 {
                           const double thlev_,
                           double & tdlev_)
   {
+    BXDECAY0_VERIF_SCOPE("nucltransKL", Egamma_, EbindeK_, conveK_, EbindeL_, conveL_, convp_, tclev_, thlev_);
     static double emass = decay0_emass();
     double p            = (1. + conveK_ + conveL_ + convp_) * prng_();
     if (p <= 1.) {
